@@ -150,3 +150,47 @@ func H_C20_concurrent() {
 	app.Stop()
 	vReach("end")
 }
+
+//verif:witness H_C20_faulty end
+//verif:bound C20 all rolling appender under an arbitrary non-decreasing clock (interval 1 s, readings within 1000 s) with a fault bit on every OpenFile after Start: 1..3 acknowledged calls; after each, the complete line is in one of the appender's files
+//verif:engine-only H_C20_faulty
+
+// H_C20_faulty: an acknowledged line is in the target also when rotations fail.
+func H_C20_faulty() {
+	vOpt("loop", 400)
+	vClockMode(1)
+	vClockWindow(1000)
+	root := vFSRoot()
+	defer vFSCleanup()
+	dir := root + "/logs"
+	vFSMkdir(dir)
+	lay := &TextLayout{BaseLayout{FileLineLength: 48}}
+	app := &RollingFileAppender{Layout: lay, FileDir: dir, FileName: "r", Rotation: TimeRotation{Interval: time.Second}, MaxAge: 168}
+	if err := app.Start(); err != nil {
+		panic(err)
+	}
+	vFaults(1, 0)
+	all := LevelRange{MinLevel: NoneLevel, MaxLevel: MaxLevel}
+	logger := &SyncLogger{LoggerBase: LoggerBase{Name: "s", Level: all}}
+	logger.AppenderRefs.AppenderRefs = []*AppenderRef{{Appender: app, Level: all}}
+	tag := &Tag{tag: "_t_x", logger: logger}
+	hook := time.Unix(1700000000, 0)
+	TimeNow = func(ctx context.Context) time.Time { return hook }
+	defer func() { TimeNow = nil }()
+	n := 1 + vChoose("calls", 3)
+	markers := [3]string{"first-line", "second-line", "third-line"}
+	for i := 0; i < n; i++ {
+		Info(context.Background(), tag, Msg(markers[i]))
+		var content []byte
+		for _, nm := range vFSNames(dir) {
+			c, _ := vFSRead(dir, nm)
+			content = append(content, c...)
+		}
+		for j := 0; j <= i; j++ {
+			vAssert(vContains(content, markers[j]+"\n"), "every-acknowledged-line-is-in-a-file")
+		}
+	}
+	vFaults(0, 0)
+	app.Stop()
+	vReach("end")
+}
